@@ -48,6 +48,9 @@ def parts(quick):
                                 ("capall", "grpall", "inner", "altun", "trail"), ALONE, ops=("=~",)), None, None))
         P.append(("odd", cfg(ODD_ATOMS + ("dot", "empty"), ("a", "c0"), ("cap", "r2"), ("cat",), 1, "AP_std", ("", "i", "s"), ("plain",), ALONE,
                              ops=("=~",)), None, None))
+        # anchors inside the expression, next to literals (two constructor applications: a $ b)
+        P.append(("inanch", cfg(("a", "ab", "eot", "bot", "empty"), ("a", "eot", "bot", "eol", "dollar"), ("cap",), ("cat",), 2, "AP_std", ("", "m"), ("plain",), ALONE),
+                  None, None))
         P.append(("wideA", cfg(("w99", "w100", "w101", "w50"), ("c2", "a", "c50", "c51"), ("cap",), ("cat", "alt"), 1, "AP_one", ("", "m"),
                                ("plain",), ALONE, maxcard=300), None, None))
         P.append(("wideB", cfg(("c100", "c101", "c100s", "c101s", "c50", "c51", "c10", "c11"), ("c2", "c10", "a", "c50", "c51"), ("cap", "r2"),
@@ -66,6 +69,8 @@ def parts(quick):
                                 ("capall", "grpall", "inner", "altun", "trail"), ALONE), None, None))
         for k, pre in enumerate(("", "i", "s", "m")):
             P.append(("odd_%d" % k, cfg(ODD_ATOMS, ("a", "c2", "c0"), UN_ALL, ("cat", "alt"), 1, "AP_std", (pre,), ("plain",), ALONE), None, None))
+        P.append(("inanch", cfg(("a", "ab", "c2", "eot", "bot", "eol", "bol", "empty"), ("a", "eot", "bot", "eol", "bol", "dollar", "c2"), ("cap", "quest"), ("cat", "alt"), 2,
+                                "AP_std", ("", "m", "i"), ("plain",), ALONE), None, None))
         P.append(("wideA", cfg(("w99", "w100", "w101", "w50"), WIDE_BIN, ("cap", "r2"), ("cat", "alt"), 1, "AP_two", ("", "i"),
                                ("plain",), ALONE, maxcard=300), None, None))
         P.append(("wideB", cfg(("c100", "c101", "c100s", "c101s", "c50", "c51", "c10", "c11", "c5", "c4", "neg"), WIDE_BIN, ("cap", "r2", "r3"),
